@@ -821,7 +821,7 @@ type desc struct {
 func main() {
 	f := gallina.ParseFlags()
 	meta := gallina.NewMeta("C42", f.Seed, f.Tier)
-	meta.Rule = "generated tsdb.DB storages (1-5 series; float / int histogram / float histogram / mixed / special float values; 3..120 samples per chunk; optionally block+head, out-of-order samples, a tombstone) x generated queries (matchers eq/neq/re/nre, ranges whose ends are stored timestamps +-1, point, full and empty ranges, frame sizes from 1 byte to 1 MiB, sample limits around the result size, external labels, sortSeries); non-trivial = the direct query returns at least one sample; distinct by (storage index, mint, maxt, matchers, frame size, limit, external labels, sort)"
+	meta.Rule = "corpus of fixed reproducers first; then generated tsdb.DB storages (1-5 series; float / int histogram / float histogram / mixed / special float values; 3..120 samples per chunk; optionally block+head, out-of-order samples, a tombstone) x generated queries (matchers eq/neq/re/nre, ranges whose ends are stored timestamps +-1, point, full and empty ranges, frame sizes from 1 byte to 1 MiB, sample limits around the result size, external labels, sortSeries, trimmed or untrimmed chunks from the serving storage), each read through the SAMPLES client, the STREAMED_XOR_CHUNKS client, the raw wire and the read.go querier, with 3 Seek probes per series; non-trivial = the direct query returns at least one sample; distinct by (storage index, mint, maxt, matchers, frame size, limit, external labels, sort, trimming)"
 	cf := &gallina.CaseFile{Dir: f.Out, Type: "case", PerShard: 0,
 		Preamble: "From Coq Require Import List ZArith NArith.\nFrom Verif Require Import lib.Int64 model.RemoteRead corr.CorrC42.\nImport ListNotations.\nOpen Scope Z_scope.\n" + dictPreamble(),
 		Footer:   gallina.StdFooter}
@@ -860,7 +860,9 @@ func main() {
 }
 
 // untrimmedQueryable asks the DB's chunk querier for whole chunks (no re-encoding at the range ends).
-type untrimmedQueryable struct{ storage.SampleAndChunkQueryable }
+type untrimmedQueryable struct {
+	storage.SampleAndChunkQueryable
+}
 
 func (u untrimmedQueryable) ChunkQuerier(mint, maxt int64) (storage.ChunkQuerier, error) {
 	q, err := u.SampleAndChunkQueryable.ChunkQuerier(mint, maxt)
